@@ -4,6 +4,7 @@ Line-protocol driver for the C20 models (trie tree, LOUDS encoding, trie bucket)
 Keys are lower-case hex, the empty key is `-`; a pair is `<hexkey>:<value>`.
 
   consts
+  prebuild <pair> ...         (earlier Build+Write+Reset on the same builder: reuse history)
   build <pair> ...            reload
   dims | levels | vec <labels|haschild|louds|hasprefix|prefixes|prefixoffsets|prefixdata|
                        hassuffix|suffixes|suffixoffsets|suffixdata|values|ranklut|selectlut>
@@ -22,6 +23,7 @@ import LinVerif.Model.Louds
 import LinVerif.Model.LoudsIter
 import LinVerif.Model.TrieBucket
 import LinVerif.Model.TrieWire
+import LinVerif.Model.TrieReuse
 import LinVerif.Generated.C20
 
 namespace LinVerif.Driver.C20
@@ -84,6 +86,8 @@ def eon : Bool := Generated.C20.getChecksEndOfNode
 def stepLB : Bool := Generated.C20.seekStepsToLowerBound
 
 structure St where
+  prev : TrieReuse.Bufs := {}        -- what the builder's re-used buffers hold (reuse history)
+  prevArmed : Bool := false          -- a `prebuild` of this case came just before the `build`
   tree : Option Node := none
   flat : Option Flat := none
   bv : List Bool := []
@@ -145,21 +149,31 @@ def step (st : St) (ws : List String) : St × String :=
   match ws with
   | ["consts"] =>
     (st, s!"labelTerminator={labelTerminator} wordSize={wordSize} rankSparseBlockSize={rankSparseBlockSize} selectSampleInterval={selectSampleInterval}")
-  | "build" :: ps =>
+  | "prebuild" :: ps =>
+    -- an earlier Build + Write on the SAME builder, then Reset: only the buffers remain
     match ps.mapM parsePair with
     | none => (st, "bad-op")
     | some kvs =>
       match build kvs with
-      | some t => ({ st with tree := some t, flat := some (encode t) }, "ok")
-      | none => ({ st with tree := none, flat := none }, "panic")
+      | some t => ({ st with prev := TrieReuse.bufsAfter {} (encode t), prevArmed := true }, "ok")
+      | none => (st, "panic")
+  | "build" :: ps =>
+    match ps.mapM parsePair with
+    | none => (st, "bad-op")
+    | some kvs =>
+      let prev : TrieReuse.Bufs := if st.prevArmed then st.prev else {}
+      match build kvs with
+      | some t => ({ st with tree := some t, flat := some (encode t), prev := prev, prevArmed := false }, "ok")
+      | none => ({ st with tree := none, flat := none, prev := prev, prevArmed := false }, "panic")
   | ["reload"] =>
     -- Write -> UnmarshalBinary on the byte-layout model: the reloaded vectors are the written ones
     withFlat st (fun f =>
-      let w := TrieWire.toWire f
+      let w := TrieReuse.toWireReuse st.prev f
       let bytes := TrieWire.marshal w
       if bytes.length != TrieWire.marshalSize w then "marshal-size-mismatch"
+      else if w != TrieWire.toWire f then "reuse-history-visible"
       else if TrieWire.unmarshal bytes == some w then "ok" else "unmarshal-mismatch")
-  | ["bytes"] => withFlat st (fun f => showKey (TrieWire.marshal (TrieWire.toWire f)))
+  | ["bytes"] => withFlat st (fun f => showKey (TrieWire.marshal (TrieReuse.toWireReuse st.prev f)))
   | ["msize"] => withFlat st (fun f => toString (TrieWire.marshalSize (TrieWire.toWire f)))
   | ["dims"] =>
     withFlat st (fun f => s!"height={f.height} keys={f.values.length} labels={f.labels.length} nodes={f.hasPrefix.length}")
